@@ -232,7 +232,8 @@ func (g *Gen) literal(want Kind) *Expr {
 	switch want {
 	case KInt:
 		if g.Cfg.BadLitPct > 0 && r.Intn(100) < g.Cfg.BadLitPct {
-			t := []string{"9223372036854775808", "08", "0x", "9223372036854775808", "0x8000000000000000", "099"}[r.Intn(6)]
+			t := []string{"9223372036854775808", "08", "0x", "9223372036854775808", "0x8000000000000000", "099", "0xffffffffffffffff", "0XFFFFFFFFFFFFFFFFFF",
+				"18446744073709551616", "01777777777777777777777", "0x10000000000000000", "99999999999999999999999999999999999999"}[r.Intn(12)]
 			g.Shapes["inject:badliteral"]++
 			return Lit(&Literal{Kind: LInt, Text: t, Bad: true, Val: 0})
 		}
